@@ -70,8 +70,11 @@ def build_v4(T=8, F=4, ants=('m000', 'm001'), cbid='1234567890', stream='sdp_l0'
              bandwidth=856e6 / 1024, center_freq=1284e6,
              acts=((0, 'slew'), (2, 'track')), targets=((0, TARGET_A),), labels=((0, 'track'),),
              need_weights_power_scale=False, bls_ordering=None, lose=(), telstate_hook=None,
-             open_kwargs=None, source_kwargs=None, tmp=None, event_offset=-0.9, extra_sensors=()):
+             open_kwargs=None, source_kwargs=None, tmp=None, event_offset=-0.9, extra_sensors=(),
+             sub_pool_resources=None, sub_product='c856M4k', cbf=None):
     """Returns V4 object with .d (VisibilityDataV4), .stored (dict of arrays), .telstate, .store, .tmp.
+
+    cbf: None (a "lite" RDB without CBF attributes) or (cbf_int_time, n_accs, scale_factor_timestamp).
 
     lose: iterable of (stream, array_name, chunk_index_tuple) chunk files to delete after writing.
     """
@@ -119,23 +122,35 @@ def build_v4(T=8, F=4, ants=('m000', 'm001'), cbid='1234567890', stream='sdp_l0'
         archived.append(l1_name)
         stored_l1 = l1_flags
     ts['sdp_archived_streams'] = archived
-    ts['sub_pool_resources'] = 'cbf_1,sdp_1,' + ','.join(ants)
-    ts['sub_product'] = 'c856M4k'
+    ts['sub_pool_resources'] = sub_pool_resources or ('cbf_1,sdp_1,' + ','.join(ants))
+    ts['sub_product'] = sub_product
+    if cbf is not None:
+        # attributes read by visdatav4._cbf_attrs: (cbf int_time, n_accs, scale_factor_timestamp)
+        s_view['src_streams'] = ['corr']
+        ts['corr_int_time'] = cbf[0]
+        ts['corr_n_accs'] = cbf[1]
+        ts['corr_src_streams'] = ['feng']
+        ts['feng_instrument_dev_name'] = 'i0'
+        ts['i0_scale_factor_timestamp'] = cbf[2]
     ts['sub_band'] = 'l'
     ts['obs_params'] = {'observer': 'verif', 'description': 'synthetic', 'proposal_id': 'P', 'sb_id_code': 'S'}
     for k, a in enumerate(ants):
         ts[a + '_observer'] = '%s, -30:42:39.8, 21:26:38.0, 1086.6, 13.5, %d %d 0' % (a, 10 * k, -7 * k)
     t0 = sync_time + first_timestamp
+
+    def ev_time(dd):
+        # events of dump 0 are placed well before the data so that time_offset / CBF fixes never orphan them
+        return t0 + int_time * dd + event_offset - (16.0 if dd == 0 else 0.0)
     for dd, v in acts:
         for a in ants:
-            ts.add(a + '_activity', v, ts=t0 + int_time * dd + event_offset)
-        ts.add('obs_activity', v, ts=t0 + int_time * dd + event_offset)
+            ts.add(a + '_activity', v, ts=ev_time(dd))
+        ts.add('obs_activity', v, ts=ev_time(dd))
     for dd, v in targets:
-        ts.add('cbf_target', v, ts=t0 + int_time * dd + event_offset)
+        ts.add('cbf_target', v, ts=ev_time(dd))
         for a in ants:
-            ts.add(a + '_target', v, ts=t0 + int_time * dd + event_offset)
+            ts.add(a + '_target', v, ts=ev_time(dd))
     for dd, v in labels:
-        ts.add('obs_label', v, ts=t0 + int_time * dd + event_offset)
+        ts.add('obs_label', v, ts=ev_time(dd))
     for name, samples in extra_sensors:
         for (tt, v) in samples:
             ts.add(name, v, ts=tt)
@@ -156,6 +171,12 @@ def build_v4(T=8, F=4, ants=('m000', 'm001'), cbid='1234567890', stream='sdp_l0'
     out.source = TelstateDataSource(view, cbid_, sn, chunk_store=store, **(source_kwargs or {}))
     out.d = VisibilityDataV4(out.source, **(open_kwargs or {}))
     return out
+
+
+def reopen(v, source_kwargs=None, open_kwargs=None):
+    """A second, independent data set on the same telstate and chunk store (e.g. with preselect)."""
+    src = TelstateDataSource(v.view, v.cbid, v.stream, chunk_store=v.store, **(source_kwargs or {}))
+    return VisibilityDataV4(src, **(open_kwargs or {}))
 
 
 def cleanup(v):
